@@ -48,10 +48,12 @@ def stmt_hooks_for(contract, fnode, module):
     for when in ("before", "after"):
         for text, fn in (gh.get(when) or {}).items():
             found = 0
+            # a tuple key lists ALTERNATIVE source texts of the anchor statement (any one present suffices)
+            alts = [" ".join(t.split()) for t in (text if isinstance(text, tuple) else (text,))]
             for n in ast.walk(fnode):
                 if isinstance(n, ast.stmt):
                     seg = module.segment(n)
-                    if seg is not None and " ".join(seg.split()) == " ".join(text.split()):
+                    if seg is not None and " ".join(seg.split()) in alts:
                         hooks.setdefault(id(n), {}).setdefault(when, []).append(fn)
                         found += 1
             if not found:
